@@ -192,9 +192,9 @@ type record struct {
 
 // adversary describes the tampering of one solve.
 type adversary struct {
-	replaceIns  []*big.Int                      // inputs handed to the genuine solve hint instead of the solver's
-	tamperOuts  func(outs []*big.Int)           // after the genuine solve hint
-	tamperPIns  func(ins []*big.Int)            // before the genuine prove hint (on a copy)
+	replaceIns  []*big.Int                       // inputs handed to the genuine solve hint instead of the solver's
+	tamperOuts  func(outs []*big.Int)            // after the genuine solve hint
+	tamperPIns  func(ins []*big.Int)             // before the genuine prove hint (on a copy)
 	tamperProof func(proof []*big.Int) (ok bool) // after the genuine prove hint
 }
 
@@ -816,7 +816,7 @@ func TestGkrSmall(t *testing.T) {
 	if ev.Tier() == "thorough" {
 		curves = allCurves
 	}
-	check(t, "gkr", curves, 1, 3, 60, 3200)
+	check(t, "gkr", curves, 1, 3, 66, 3300)
 }
 
 func TestGkrLarge(t *testing.T) {
@@ -824,7 +824,7 @@ func TestGkrLarge(t *testing.T) {
 	if ev.Tier() == "thorough" {
 		curves = allCurves
 	}
-	check(t, "gkr-large", curves, 3, 5, 20, 800)
+	check(t, "gkr-large", curves, 3, 5, 14, 700)
 }
 
 // TestRegressions runs the minimal inputs of the two defects this check found on the tree it was
